@@ -13,7 +13,7 @@ from strategies import data as D
 PROPERTY_ID = "C16"
 TECHNIQUE = "Hypothesis-generated multivariate data/penalties/savings vs. sorted-saving argmax model (fresh saving instance, sparse penalty from its closed form) + positional labelling of transform"
 ASSUMPTIONS = [
-    "collective anomalies: sparse penalty (2 s log n, 2 s log(k p)) at the collective scale, re-implemented from the formula; point anomalies: the configured point penalty family (its values are inputs, pinned by C15)",
+    "collective anomalies: sparse penalty (2 s log n, 2 s log(k p)) at the collective scale, re-implemented from the formula; point anomalies: the configured point penalty (built-in family values are inputs, pinned by C15; user callables return generated values)",
     "exact order/size equality is demanded only when column savings and the penalised objective are separated by more than the margin 1e-6 (1+|saving|); otherwise the order-free consequences are asserted",
 ]
 
@@ -28,6 +28,18 @@ def n_params(spec):
     if spec["cls"] == "Saving":
         return n_params(spec["baseline_cost"])
     return 2 if spec["cls"] == "GaussianVarCost" else 1
+
+
+@st.composite
+def point_penalty_strategy(draw, p):
+    """Built-in family name or a user callable {"penalty": {alpha, betas}} with rank-dependent betas."""
+    kind = draw(st.sampled_from(["sparse", "combined", "intermediate", "dense", "callable"]))
+    if kind != "callable":
+        return kind
+    betas = [draw(st.sampled_from([0.0, 0.5, 1.0, 2.0, 4.0, 8.0])) for _ in range(p)]
+    if draw(st.booleans()):
+        betas = sorted(betas, reverse=True)  # large first term: several columns needed to pay for it
+    return {"penalty": {"alpha": draw(st.sampled_from([0.0, 1.0, 3.0])), "betas": betas}}
 
 
 @st.composite
@@ -48,7 +60,7 @@ def cases(draw, tier):
     return {"params": {"collective_saving": coll, "point_saving": draw(st.sampled_from([None, {"cls": "L2Cost", "param": 0.0}])),
                        "collective_penalty": draw(st.sampled_from(fams)),
                        "collective_penalty_scale": draw(st.sampled_from([1.0, 0.5, 2.0, 0.1, 0.0, 0.25])),
-                       "point_penalty": draw(st.sampled_from(["sparse", "dense"])),
+                       "point_penalty": draw(point_penalty_strategy(p)),
                        "point_penalty_scale": draw(st.sampled_from([1.0, 0.5, 2.0, 0.1])),
                        "min_segment_length": msl, "max_segment_length": draw(st.sampled_from([1000, msl + 5, msl]))},
             "X": X, "index": draw(D.index_spec()), "columns": draw(st.sampled_from(["default", "strings"]))}
@@ -76,8 +88,12 @@ def check(case):
     kp = n_params(params["point_saving"])
     scale = params["collective_penalty_scale"]
     sparse_alpha, sparse_beta = 2 * scale * math.log(n), 2 * scale * math.log(kc * p)
-    pfam = {"sparse": M.sparse_mvcapa_penalty, "dense": M.dense_mvcapa_penalty}[params["point_penalty"]]
-    p_alpha, p_betas = pfam(n, p, kp, params["point_penalty_scale"])
+    if isinstance(params["point_penalty"], dict):
+        pp = params["point_penalty"]["penalty"]
+        p_alpha = pp["alpha"] * params["point_penalty_scale"]
+        p_betas = np.asarray(pp["betas"], dtype=float) * params["point_penalty_scale"]
+    else:
+        p_alpha, p_betas = M.capa_penalty_factory(params["point_penalty"])(n, p, kp, params["point_penalty_scale"])
     proper = False
     margin_cases = 0
     for (a, b), got in zip(events, icols):
@@ -131,13 +147,14 @@ def check(case):
     if margin_cases:
         classes.append("margin_satisfied")
     classes.append(f"c_pen={params['collective_penalty']}")
+    classes.append("p_pen=" + (params["point_penalty"] if isinstance(params["point_penalty"], str) else "callable"))
     return {"nontrivial": proper, "classes": classes}
 
 
 FACETS = [
     Facet(name="affected_columns", check=check, strategy=cases,
           rule=("p in 2..6, n<=50, bumps and spikes on generated column subsets with distinct per-column magnitudes, all collective "
-                "penalty families x scales, point family sparse/dense, savings L2Saving / Saving(L2Cost(0)) / Saving(GaussianVarCost); "
+                "penalty families x scales, point penalty from all four families or a user callable with rank-dependent betas, savings L2Saving / Saving(L2Cost(0)) / Saving(GaussianVarCost); "
                 "DataFrame input with generated index and column labels; non-trivial = an anomaly whose subset is proper (1 <= k* < p)"),
           n_quick=640, n_thorough=10000, shards_quick=8, shards_thorough=16),
 ]
